@@ -71,7 +71,10 @@ class Particles(MutableMapping):
                 self._ps[p.index] = value
 
     def __delitem__(self, key):
-        pass
+        if isinstance(key, slice):
+            raise AttributeError("Slices cannot be used to remove particles. Use sim.remove() instead.")
+        # Look the particle up (raises for an invalid index or an unknown hash), then remove it by index.
+        self.sim.remove(index=self[key].index)
 
     def __iter__(self):
         if self.sim.N>0:
